@@ -29,11 +29,12 @@ def main() -> int:
         if a.replay:
             payload = json.loads(open(a.replay).read())
             return mod.replay(payload) if hasattr(mod, "replay") else generic_replay(mod, payload)
-        ctx = common.Ctx(prop, a.tier, a.seed)
+        drivers = meta.get("drivers", ["drv_elapsed"])
+        ctx = common.Ctx(prop, a.tier, a.seed, drivers[0])
         if a.no_proof:
             proof = {"ok": True, "theorems": {t: [] for t in meta.get("theorems", [])}, "problems": [], "checker_cmd": "(skipped)"}
         else:
-            proof = common.run_proof(prop, meta["proof_modules"], meta.get("theorems", []), ctx.thorough)
+            proof = common.run_proof(prop, meta["proof_modules"], meta.get("theorems", []), ctx.thorough, drivers)
         mod.run(ctx)
         return common.finish(ctx, proof, meta, boot)
     except common.InfraError as e:
